@@ -144,6 +144,11 @@ class Interp:
 
     def cur_short(self):
         q = self.cur_q or "?"
+        if self.cur is not None and self.cur.variant:
+            return self._short(q) + "@" + self.cur.variant
+        return self._short(q)
+
+    def _short(self, q):
         parts = q.split(".")
         # Class.method or function
         if len(parts) >= 2 and parts[-2][:1].isupper():
@@ -875,7 +880,19 @@ class Interp:
         if isinstance(f, ast.Attribute) and isinstance(f.value, ast.Name) and f.value.id == "typing" and f.attr == "cast":
             return self.ev(st, e.args[1], fr, k)
         def with_f(s2, fv):
-            return self.ev_args(s2, e, fr, lambda s3, args, kwargs: self.call(s3, fv, args, kwargs, fr, k, node=e))
+            if isinstance(fv, Sym) and isinstance(f, ast.Name):
+                fv = _Origin(fv.t, fv.hint, f.id)
+            def do(s3, args, kwargs):
+                if isinstance(f, ast.Name) and self.cur is not None and not fr.spec:
+                    for callee, nm, expr in self.cur.site_asserts:
+                        if callee == "name:" + f.id:
+                            env = dict(s3.env); env["args"] = Tup(args)
+                            lid = self.w.fresh("D"); s3.lheap[lid] = dict(kwargs); env["kwargs"] = LDict(lid)
+                            env.update(self.cur_entry or {})
+                            env.update({k_: v_ for k_, v_ in s3.env.items()})
+                            self.oblige(s3, f"site:{nm}", self.spec_bool(s3, expr, env, old=s3.old), kind="site", clause=expr)
+                return self.call(s3, fv, args, kwargs, fr, k, node=e)
+            return self.ev_args(s2, e, fr, do)
         return self.ev(st, f, fr, with_f)
 
     def ev_args(self, st, e, fr, k):
@@ -1355,6 +1372,15 @@ class Interp:
             hint = q
         st.pc.append(z3.Or(c, is_none(v.t)) if opt else c)
         return Sym(v.t, hint)
+
+
+class _Origin(Sym):
+    """a Sym that remembers the local name it was called through (for opaque_calls)"""
+    __slots__ = ("origin",)
+
+    def __init__(self, t, hint, origin):
+        Sym.__init__(self, t, hint)
+        self.origin = origin
 
 
 class _NoMerge(Exception):
